@@ -1200,9 +1200,23 @@ np.any = _red('any', e_or, False)
 np.all = _red('all', e_and, True)
 
 
+GENERIC_NONZERO = [False]
+
+
 def count_nonzero(a, axis=None):
     if is_sym(a):
-        return reduce_arr(UF['add'], emap(lambda v: ite(_b(v), 1, 0) if isinstance(_b(v), SBool) else builtins.int(_b(v)), a), axis, 0)
+        def one(v):
+            if GENERIC_NONZERO[0] and isinstance(v, (SNum, SCx)) and not _is_zero(v) and pyval(v) is None:
+                # generic-position assumption (explicit, recorded): a value that is not identically zero is non-zero
+                c = core.CUR[0]
+                t = (v != 0)
+                if isinstance(t, SBool):
+                    c.assume(t)
+                    return 1
+                return builtins.int(bool(t))
+            t = _b(v)
+            return ite(t, 1, 0) if isinstance(t, SBool) else builtins.int(t)
+        return reduce_arr(UF['add'], emap(one, a), axis, 0)
     return rnp.count_nonzero(a, axis=axis)
 
 
